@@ -13,7 +13,7 @@ def punct(lm):
 
 def numbers(lm):
     return {
-        "NUM": lm.custom("<n>", ["1", "25", "300"], "NUM"),
+        "NUM": lm.custom("<n>", ["1", "25", "300", "0", "7", "12"], "NUM"),
         "NEG": lm.custom("<-n>", ["-1", "-25", "-300"], "NUM"),
         "BIG": lm.custom("<2^63>", ["9223372036854775807", "9223372036854775808", "18446744073709551616"], "NUM"),
         "NEGBIG": lm.custom("<-2^63>", ["-9223372036854775808", "-9223372036854775807", "-18446744073709551616"], "NUM"),
@@ -38,10 +38,32 @@ class Matcher:
         raise NotImplementedError
 
 
+def _has_matcher(v, d=0):
+    if isinstance(v, Matcher):
+        return True
+    if d > 5:
+        return False
+    if isinstance(v, dict):
+        return any(_has_matcher(x, d + 1) for x in v.values())
+    if isinstance(v, (list, tuple)):
+        return any(_has_matcher(x, d + 1) for x in v)
+    return False
+
+
 def matches(expected, actual):
+    from ..pyabs import NonUniform
+    try:
+        return _matches(expected, actual)
+    except NonUniform:
+        return False        # equal for some exemplars of a class only = not the expected value
+
+
+def _matches(expected, actual):
     if isinstance(expected, Matcher):
         return expected.match(actual)
-    if isinstance(expected, dict) and isinstance(actual, dict) and any(isinstance(v, Matcher) for v in expected.values()):
+    if isinstance(expected, (list, tuple)) and isinstance(actual, (list, tuple)) and _has_matcher(expected):
+        return len(expected) == len(actual) and all(matches(e, a) for e, a in zip(expected, actual))
+    if isinstance(expected, dict) and isinstance(actual, dict) and _has_matcher(expected):
         if len(expected) != len(actual):
             return False
         for k, v in expected.items():
@@ -141,6 +163,6 @@ class DeltaOracle:
                 elif not matches(expected[k], new[k]):
                     ex.add("O-value", f"{self.spec.name}: {kinds}: `{k}` wrong after `{red.prod}`",
                            f"expected {k!r}: {show(expected[k])!r}, the fold by {red.func} gives {show(new[k])!r}", wit)
-        elif not deep_eq(expected, new):
+        elif not matches(expected, new):
             ex.add("O-value", f"{self.spec.name}: {kinds}: value wrong after `{red.prod}`",
                    f"expected {show(expected)!r}, got {show(new)!r}", wit)
